@@ -181,4 +181,41 @@ def mapper_contract():
 
 
 R.check("mapping codes between alphabets preserves the symbols", "alphabet mapper", {"from": "unamb", "to": "amb"}, mapper_contract)
+
+
+def mapper_sizes(n_src, n_tgt, shuffle):
+    """generic alphabets of the given sizes (code dtypes uint8 / uint16 / uint32 boundaries), target is a shuffled superset"""
+    src = seq.Alphabet([f"s{i}" for i in range(n_src)])
+    tgt_syms = [f"s{i}" for i in range(n_src)] + [f"t{i}" for i in range(n_tgt - n_src)]
+    if shuffle:
+        tgt_syms = tgt_syms[::-1]
+    tgt = seq.Alphabet(tgt_syms)
+    m = seq.AlphabetMapper(src, tgt)
+    codes = np.arange(n_src)
+    out = np.asarray(m[codes])
+    back = [tgt.decode(int(c)) for c in out]
+    if back != [src.decode(int(c)) for c in codes]:
+        bad = [(int(c), b) for c, b in zip(codes, back) if b != src.decode(int(c))][:3]
+        return f"codes mapped to other symbols, e.g. {bad}"
+    return None
+
+
+for n_src, n_tgt in [(4, 10), (20, 255), (20, 256), (20, 257), (20, 420), (255, 300), (256, 300), (300, 70000), (3, 66000)]:
+    for shuffle in (False, True):
+        R.check("mapping codes between alphabets preserves the symbols", f"mapper {n_src}->{n_tgt}", {"source": n_src, "target": n_tgt, "reversed": shuffle},
+                lambda n_src=n_src, n_tgt=n_tgt, shuffle=shuffle: mapper_sizes(n_src, n_tgt, shuffle))
+
+
+def kmer_mapper():
+    base = seq.NucleotideSequence.alphabet_unamb
+    k5 = align.KmerAlphabet(base, 5)
+    src = seq.Alphabet(["TTTTT", "GATTA", "AAAAA", "ACGTA"])
+    tgt = seq.Alphabet([k5.decode(c) if isinstance(k5.decode(c), str) else "".join(k5.decode(c)) for c in range(len(k5))])
+    m = seq.AlphabetMapper(src, tgt)
+    out = np.asarray(m[np.arange(len(src))])
+    got = [tgt.decode(int(c)) for c in out]
+    return None if list(got) == list(src.get_symbols()) else f"mapped to {got}"
+
+
+R.check("mapping codes between alphabets preserves the symbols", "mapper into a 1024-symbol alphabet", {"target": "all 5-mers"}, kmer_mapper)
 R.finish()
